@@ -406,7 +406,11 @@ class PayloadVENDOR(Payload):
 
     def to_dict(self):
         result = super().to_dict()
-        result['vendor_id'] = self.vendor_id.decode()
+        try:
+            result['vendor_id'] = self.vendor_id.decode()
+        except UnicodeDecodeError:
+            # vendor IDs are opaque octets (often a hash): show them in hex when they are not text
+            result['vendor_id'] = self.vendor_id.hex()
         return result
 
 
@@ -572,12 +576,15 @@ class PayloadID(Payload):
         return data
 
     def _id_data_str(self):
-        if self.id_type in (PayloadID.Type.ID_RFC822_ADDR, PayloadID.Type.ID_FQDN):
-            return self.id_data.decode()
-        elif self.id_type in (PayloadID.Type.ID_IPV4_ADDR, PayloadID.Type.ID_IPV6_ADDR):
-            return str(ip_address(self.id_data)),
-        else:
-            return self.id_data.hex()
+        # what the peer sends is not necessarily well formed: fall back to hex instead of failing to render it
+        try:
+            if self.id_type in (PayloadID.Type.ID_RFC822_ADDR, PayloadID.Type.ID_FQDN):
+                return self.id_data.decode()
+            elif self.id_type in (PayloadID.Type.ID_IPV4_ADDR, PayloadID.Type.ID_IPV6_ADDR):
+                return str(ip_address(self.id_data)),
+        except ValueError:
+            pass
+        return self.id_data.hex()
 
     def to_dict(self):
         result = super().to_dict()
